@@ -39,7 +39,7 @@ ENCODINGS = ["orca", "psi4_old", "turbomole", "cfour", "unnormalized_contraction
 
 # shell types each program can write (beyond s and p, which all can)
 PRODUCES = {
-    "orca": [(2, "p"), (3, "p"), (4, "p")],
+    "orca": [(2, "p"), (3, "p"), (4, "p"), (5, "p")],
     "psi4_old": [(2, "p"), (3, "p")],
     "turbomole": [(2, "c"), (3, "c"), (4, "c")],
     "cfour": [(2, "c"), (3, "c"), (4, "c")],
